@@ -1,8 +1,554 @@
-//! C16 — not built yet.
+//! C16 — YAML index independent of the SIMD dispatch level (DESIGN §4 C16).
+//!
+//! Two halves:
+//!  * kernels: every public `yaml::simd` kernel against a harness-side definition taken
+//!    from its doc comment, over arbitrary buffers x every start offset. Runs in each
+//!    configuration of the matrix (default = AVX2 on this host, `sse2` = SUCCINCTLY_SIMD
+//!    clamp, `scalar-yaml` feature build).
+//!  * whole index: the same seeded stream of inputs is indexed in each configuration and a
+//!    full textual dump (build result, every bitvector, position tables, anchors, aliases,
+//!    tags, comments, JSON and YAML output) is hashed per case; `vh merge` diffs the
+//!    per-case hashes across configurations (E5).
 use crate::engine::*;
+use crate::isolate::IsoOpts;
+use serde_json::json;
+use succinctly::jq::document::IndentSpec;
+use succinctly::yaml::simd as ys;
+use succinctly::yaml::YamlIndex;
 
-pub const RULE: &str = "not built";
+pub const RULE: &str = "kernels: buffers over a YAML-indicator-rich alphabet (runs of spaces/quotes/breaks up to 70 bytes, raw bytes), every start offset (and end), each public yaml::simd kernel vs a definition written from its doc comment. whole index: generated YAML streams (G-yaml, all presentation features), hand-rolled YAML-ish texts with long plain/quoted/block scalars and anchor names stretched across 16/32-byte boundaries by alignment prefixes, mutated texts and raw soups; identical per-case dump digests required across the default(AVX2) / SUCCINCTLY_SIMD=sse2 / scalar-yaml configurations. Non-trivial: input >= 48 bytes containing a quoted/plain/block scalar or anchor name that crosses an offset that is a multiple of 16; distinct by input hash.";
+
+const ALPHA: &[u8] = b" \n\r\t\"'\\#:-[]{},a&*!|>%@`z\x00\x1f\x7f\x80\xff";
+
+pub fn gen_buffer(u: &mut Src) -> Vec<u8> {
+    let mut b = Vec::new();
+    let segs = u.range(0, 12);
+    for _ in 0..segs {
+        match u.below(6) {
+            0 => {
+                // a run of one byte (long runs cross 16/32-byte chunks)
+                let c = *u.pick(b" \n\r\"'\\a:-#");
+                let n = u.range(1, 70);
+                b.extend(std::iter::repeat(c).take(n));
+            }
+            1 => {
+                let n = u.range(1, 40);
+                b.extend(std::iter::repeat(b'a').take(n));
+            }
+            2 => {
+                for _ in 0..u.range(1, 8) {
+                    b.push(u.byte());
+                }
+            }
+            3 => b.extend_from_slice(*u.pick(&[&b": "[..], b":\n", b":\t", b":\r", b":x", b": #", b" #", b"\r\n", b"\n  ", b"\n\n", b"\\\"", b"''"])),
+            _ => {
+                for _ in 0..u.range(1, 12) {
+                    b.push(*u.pick(ALPHA));
+                }
+            }
+        }
+    }
+    b
+}
+
+fn model_block_end(input: &[u8], start: usize, min_indent: usize) -> usize {
+    // "Returns the start of the first line whose content sits at less than min_indent
+    //  spaces, or input.len(); blank lines belong to the block; both \n and \r open a line"
+    let n = input.len();
+    let mut pos = start;
+    while pos < n {
+        if input[pos] == b'\n' || input[pos] == b'\r' {
+            let ls = pos + 1;
+            if ls >= n {
+                return n;
+            }
+            let mut ind = 0;
+            while ls + ind < n && input[ls + ind] == b' ' {
+                ind += 1;
+            }
+            if ls + ind < n {
+                let c = input[ls + ind];
+                if c != b'\n' && c != b'\r' && ind < min_indent {
+                    return ls;
+                }
+            }
+        }
+        pos += 1;
+    }
+    n
+}
+
+fn model_anchor_end(input: &[u8], start: usize) -> usize {
+    // terminators: space, tab, LF, CR, [ ] { } ,  and ':' followed by whitespace
+    let n = input.len();
+    let mut p = start;
+    while p < n {
+        match input[p] {
+            b' ' | b'\t' | b'\n' | b'\r' | b'[' | b']' | b'{' | b'}' | b',' => return p,
+            b':' => {
+                if p + 1 < n && matches!(input[p + 1], b' ' | b'\t' | b'\n' | b'\r') {
+                    return p;
+                }
+            }
+            _ => {}
+        }
+        p += 1;
+    }
+    n
+}
+
+pub fn check_kernels(b: &[u8], u: &mut Src, st: &mut Stats) -> Result<(), Fail> {
+    let n = b.len();
+    let info = || json!({"buffer": show_bytes(b), "hex": hex(&b[..n.min(300)]), "len": n});
+    for start in 0..=n + 2 {
+        // find_quote_or_escape / find_single_quote with a few ends
+        let ends = [n, n + 5, start, start + 1, start + 16, start + 17, start + 33, u.range(0, n + 3)];
+        for &end in &ends {
+            let e = end.min(n);
+            let m1 = if start >= end || start >= n { None } else { b[start..e].iter().position(|&c| c == b'"' || c == b'\\') };
+            check_eq!("C16/kernel/find_quote_or_escape", m1, ys::find_quote_or_escape(b, start, end), {"case": info(), "start": start, "end": end});
+            let m2 = if start >= end || start >= n { None } else { b[start..e].iter().position(|&c| c == b'\'') };
+            check_eq!("C16/kernel/find_single_quote", m2, ys::find_single_quote(b, start, end), {"case": info(), "start": start, "end": end});
+        }
+        let m3 = if start >= n { 0 } else { b[start..].iter().take_while(|&&c| c == b' ').count() };
+        check_eq!("C16/kernel/count_leading_spaces", m3, ys::count_leading_spaces(b, start), {"case": info(), "start": start});
+        let m4 = if start >= n { None } else { b[start..].iter().position(|&c| c == b'\n') };
+        check_eq!("C16/kernel/find_newline", m4, ys::find_newline(b, start), {"case": info(), "start": start});
+        let m5 = if start >= n { n } else { b[start..].iter().position(|&c| c == b'"' || c == b'\\' || c < 0x20).map(|i| i + start).unwrap_or(n) };
+        check_eq!("C16/kernel/find_json_escape", m5, ys::find_json_escape(b, start), {"case": info(), "start": start});
+        st.evals(ends.len() as u64 * 2 + 3);
+        if start <= n {
+            check_eq!("C16/kernel/parse_anchor_name", model_anchor_end(b, start), ys::parse_anchor_name(b, start), {"case": info(), "start": start});
+            for &mi in &[0usize, 1, 2, 3, 4, 8, 15, 16, 17, 33] {
+                check_eq!("C16/kernel/find_block_scalar_end", Some(model_block_end(b, start, mi)), ys::find_block_scalar_end(b, start, mi), {"case": info(), "start": start, "min_indent": mi});
+            }
+            st.evals(11);
+        }
+        #[cfg(all(target_arch = "x86_64", not(feature = "scalar-yaml")))]
+        {
+            for has_cr in [false, true] {
+                let r = if has_cr { ys::classify_yaml_chars::<true>(b, start) } else { ys::classify_yaml_chars::<false>(b, start) };
+                if let Some(c) = r {
+                    let w = c.width;
+                    if !(w == 16 || w == 32) || start + w > n {
+                        fail!("C16/kernel/classify/width", {"case": info(), "start": start, "width": w});
+                    }
+                    let mask = |f: &dyn Fn(u8) -> bool| -> u32 {
+                        let mut m = 0u32;
+                        for i in 0..w {
+                            if f(b[start + i]) {
+                                m |= 1 << i;
+                            }
+                        }
+                        m
+                    };
+                    let lowbits = if w == 32 { u32::MAX } else { (1u32 << w) - 1 };
+                    let exp = [
+                        ("newlines", mask(&|c| c == b'\n'), c.newlines),
+                        ("carriage_returns", if has_cr { mask(&|c| c == b'\r') } else { 0 }, c.carriage_returns),
+                        ("colons", mask(&|c| c == b':'), c.colons),
+                        ("hyphens", mask(&|c| c == b'-'), c.hyphens),
+                        ("spaces", mask(&|c| c == b' '), c.spaces),
+                        ("quotes_double", mask(&|c| c == b'"'), c.quotes_double),
+                        ("quotes_single", mask(&|c| c == b'\''), c.quotes_single),
+                        ("backslashes", mask(&|c| c == b'\\'), c.backslashes),
+                        ("hash", mask(&|c| c == b'#'), c.hash),
+                    ];
+                    for (name, e, a) in exp {
+                        // only the low `width` bits are meaningful (documented)
+                        if e != a & lowbits {
+                            fail!(format!("C16/kernel/classify/{}", name), {"case": info(), "start": start, "has_cr": has_cr, "width": w, "expected": format!("{:08x}", e), "actual": format!("{:08x}", a)});
+                        }
+                    }
+                    st.evals(9);
+                }
+            }
+        }
+    }
+    Ok(())
+}
+
+// ---------------------------------------------------------------- whole index
+
+/// Hand-rolled YAML-ish text: mostly valid block YAML with long scalars; validity is not
+/// required (the property quantifies over all byte strings).
+pub fn gen_yamlish(u: &mut Src) -> Vec<u8> {
+    let nl: &[u8] = *u.pick(&[&b"\n"[..], b"\n", b"\r\n", b"\r"]);
+    let mut out = Vec::new();
+    // alignment prefix: a comment line of 0..63 bytes shifts every later offset
+    if u.bool() {
+        let n = u.range(0, 63);
+        out.push(b'#');
+        out.extend(std::iter::repeat(b'x').take(n));
+        out.extend_from_slice(nl);
+    }
+    let docs = u.range(1, 2);
+    for d in 0..docs {
+        if d > 0 || u.ratio(1, 4) {
+            out.extend_from_slice(b"---");
+            out.extend_from_slice(nl);
+        }
+        let mut budget = u.range(1, 14);
+        yamlish_node(u, &mut out, 0, 3, nl, &mut budget);
+    }
+    out
+}
+
+fn long_words(u: &mut Src, out: &mut Vec<u8>, max: usize) {
+    let n = u.range(1, max);
+    let mut w = 0;
+    while w < n {
+        let l = u.range(1, 12);
+        for _ in 0..l {
+            out.push(b'a' + u.below(26) as u8);
+        }
+        w += l;
+        if w < n {
+            out.push(b' ');
+            w += 1;
+        }
+    }
+}
+
+fn yamlish_scalar(u: &mut Src, out: &mut Vec<u8>, indent: usize, nl: &[u8]) {
+    match u.below(12) {
+        0 => long_words(u, out, 90),
+        1 => {
+            out.push(b'"');
+            for _ in 0..u.range(0, 60) {
+                match u.below(12) {
+                    0 => out.extend_from_slice(b"\\\""),
+                    1 => out.extend_from_slice(b"\\\\"),
+                    2 => out.extend_from_slice(b"\\n"),
+                    3 => out.extend_from_slice(b"\\u00e9"),
+                    4 => out.extend_from_slice("é".as_bytes()),
+                    5 => out.push(b'\''),
+                    6 => out.extend_from_slice(b": "),
+                    7 => out.extend_from_slice(b" #"),
+                    _ => out.push(b'a' + u.below(26) as u8),
+                }
+            }
+            out.push(b'"');
+        }
+        2 => {
+            out.push(b'\'');
+            for _ in 0..u.range(0, 60) {
+                match u.below(10) {
+                    0 => out.extend_from_slice(b"''"),
+                    1 => out.push(b'"'),
+                    2 => out.push(b'\\'),
+                    3 => out.extend_from_slice(b": "),
+                    _ => out.push(b'a' + u.below(26) as u8),
+                }
+            }
+            out.push(b'\'');
+        }
+        3 => {
+            // block scalar
+            out.push(*u.pick(b"|>"));
+            match u.below(3) {
+                0 => out.push(b'-'),
+                1 => out.push(b'+'),
+                _ => {}
+            }
+            out.extend_from_slice(nl);
+            let lines = u.range(1, 5);
+            for i in 0..lines {
+                if u.ratio(1, 6) {
+                    out.extend_from_slice(nl); // blank line inside the block
+                    continue;
+                }
+                out.extend(std::iter::repeat(b' ').take(indent + 2 + if u.ratio(1, 8) { 2 } else { 0 }));
+                long_words(u, out, 50);
+                if i + 1 < lines {
+                    out.extend_from_slice(nl);
+                }
+            }
+        }
+        4 => {
+            out.push(b'&');
+            for _ in 0..u.range(1, 40) {
+                out.push(*u.pick(b"abcdefgh0123456789_-"));
+            }
+            out.push(b' ');
+            long_words(u, out, 20);
+        }
+        5 => out.extend_from_slice(b"*a"),
+        6 => out.extend_from_slice(*u.pick(&[&b"null"[..], b"~", b"true", b"false", b"123", b"-4.5e3", b"0x1F", b"", b"1_000"])),
+        7 => {
+            out.push(b'[');
+            for i in 0..u.range(0, 5) {
+                if i > 0 {
+                    out.extend_from_slice(b", ");
+                }
+                long_words(u, out, 14);
+            }
+            out.push(b']');
+        }
+        8 => {
+            out.push(b'{');
+            for i in 0..u.range(0, 4) {
+                if i > 0 {
+                    out.extend_from_slice(b", ");
+                }
+                out.push(b'k');
+                out.push(b'0' + i as u8);
+                out.extend_from_slice(b": ");
+                long_words(u, out, 10);
+            }
+            out.push(b'}');
+        }
+        9 => {
+            out.extend_from_slice(b"!!str ");
+            long_words(u, out, 10);
+        }
+        _ => long_words(u, out, 20),
+    }
+    if u.ratio(1, 6) {
+        out.extend_from_slice(b" # ");
+        long_words(u, out, 40);
+    }
+}
+
+fn yamlish_node(u: &mut Src, out: &mut Vec<u8>, indent: usize, depth: usize, nl: &[u8], budget: &mut usize) {
+    let n = u.range(1, 4);
+    let seq = u.bool();
+    for i in 0..n {
+        if *budget == 0 {
+            return;
+        }
+        *budget -= 1;
+        out.extend(std::iter::repeat(b' ').take(indent));
+        if seq {
+            out.extend_from_slice(b"- ");
+        } else {
+            if u.ratio(1, 10) {
+                out.extend_from_slice(b"&a ");
+            }
+            out.push(b'k');
+            out.push(b'a' + (i as u8 % 26));
+            for _ in 0..u.range(0, 20) {
+                out.push(b'a' + u.below(26) as u8);
+            }
+            out.extend_from_slice(b": ");
+        }
+        if depth > 0 && u.ratio(1, 3) {
+            if seq && u.bool() {
+                // inline mapping after the dash
+                out.extend_from_slice(b"x: ");
+                yamlish_scalar(u, out, indent + 2, nl);
+                out.extend_from_slice(nl);
+                out.extend(std::iter::repeat(b' ').take(indent + 2));
+                out.extend_from_slice(b"y: ");
+                yamlish_scalar(u, out, indent + 2, nl);
+                out.extend_from_slice(nl);
+            } else {
+                while out.last() == Some(&b' ') {
+                    out.pop();
+                }
+                out.extend_from_slice(nl);
+                yamlish_node(u, out, indent + 2, depth - 1, nl, budget);
+            }
+        } else {
+            yamlish_scalar(u, out, indent, nl);
+            out.extend_from_slice(nl);
+        }
+    }
+}
+
+/// G-yaml stream (valid by construction). TODO(after merge of gen/yaml.rs): use it here.
+fn gen_gyaml(u: &mut Src) -> Vec<u8> {
+    gen_yamlish(u)
+}
+
+pub fn mutate(u: &mut Src, t: &mut Vec<u8>) {
+    for _ in 0..u.range(1, 3) {
+        if t.is_empty() {
+            t.push(u.byte());
+            continue;
+        }
+        let i = u.below(t.len());
+        match u.below(5) {
+            0 => t[i] = u.byte(),
+            1 => {
+                t.remove(i);
+            }
+            2 => t.insert(i, *u.pick(ALPHA)),
+            3 => {
+                let j = u.below(t.len());
+                t.swap(i, j);
+            }
+            _ => t.truncate(i),
+        }
+    }
+}
+
+fn words_hex(w: &[u64]) -> String {
+    let mut s = String::with_capacity(w.len() * 17);
+    for x in w {
+        s.push_str(&format!("{:016x},", x));
+    }
+    s
+}
+
+/// The full textual dump of everything C16 names, for one input, in this configuration.
+pub fn dump_index(text: &[u8]) -> String {
+    let mut d = String::new();
+    let idx = match catch(|| YamlIndex::build(text)) {
+        Err((loc, msg)) => return format!("build: PANIC {} {}", panic_sig(&loc), msg),
+        Ok(Err(e)) => return format!("build: Err {:?} | {}", e, e),
+        Ok(Ok(i)) => i,
+    };
+    d.push_str("build: Ok\n");
+    d.push_str(&format!("ib[{}]: {}\n", idx.ib_len(), words_hex(idx.ib())));
+    let bp = idx.bp();
+    let bplen = bp.len();
+    let nw = bplen.div_ceil(64);
+    let mut bw: Vec<u64> = bp.words().iter().take(nw).copied().collect();
+    if bplen % 64 != 0 {
+        if let Some(l) = bw.last_mut() {
+            *l &= (1u64 << (bplen % 64)) - 1;
+        }
+    }
+    d.push_str(&format!("bp[{}]: {}\n", bplen, words_hex(&bw)));
+    d.push_str(&format!("ty[{}]: {}\n", idx.ty_len(), words_hex(idx.ty())));
+    let lim = bplen.min(6000);
+    let r = catch(|| {
+        let mut s = String::new();
+        for p in 0..lim {
+            if !bp.is_open(p) {
+                continue;
+            }
+            s.push_str(&format!(
+                "{}: c={} pos={:?} end={:?} alias={} tgt={:?} an={:?} aan={:?} tag={:?} cm={:?}\n",
+                p,
+                idx.is_container(p),
+                idx.bp_to_text_pos(p),
+                idx.bp_to_text_end_pos(p),
+                idx.is_alias(p),
+                idx.get_alias_target(p),
+                idx.get_anchor_name(p),
+                idx.get_alias_anchor_name(p),
+                idx.get_tag(p),
+                idx.get_line_comment(p),
+            ));
+        }
+        s
+    });
+    match r {
+        Ok(s) => d.push_str(&s),
+        Err((loc, msg)) => d.push_str(&format!("nodes: PANIC {} {}\n", panic_sig(&loc), msg)),
+    }
+    match catch(|| idx.root(text).to_json_document()) {
+        Ok(j) => d.push_str(&format!("json: {}\n", j)),
+        Err((loc, msg)) => d.push_str(&format!("json: PANIC {} {}\n", panic_sig(&loc), msg)),
+    }
+    match catch(|| {
+        let mut o = String::new();
+        let r = idx.root(text).stream_yaml_document(&mut o, IndentSpec::spaces(2), false);
+        (o, r.is_ok())
+    }) {
+        Ok((y, ok)) => d.push_str(&format!("yaml(ok={}): {}\n", ok, y)),
+        Err((loc, msg)) => d.push_str(&format!("yaml: PANIC {} {}\n", panic_sig(&loc), msg)),
+    }
+    d
+}
+
+fn crosses_16(text: &[u8]) -> bool {
+    // a quoted/plain/block scalar or anchor name token of >= 2 bytes spanning a multiple of 16:
+    // approximated as any run of non-break, non-space bytes, or a quoted region, that does
+    let mut i = 0;
+    let n = text.len();
+    while i < n {
+        let c = text[i];
+        if c == b'"' || c == b'\'' {
+            let q = c;
+            let s = i;
+            i += 1;
+            while i < n && text[i] != q {
+                i += 1;
+            }
+            if i / 16 != s / 16 {
+                return true;
+            }
+        } else if c == b'&' || c.is_ascii_alphabetic() {
+            let s = i;
+            while i < n && !matches!(text[i], b'\n' | b'\r' | b':' | b'#') {
+                i += 1;
+            }
+            if i > s + 1 && (i - 1) / 16 != s / 16 {
+                return true;
+            }
+        }
+        i += 1;
+    }
+    false
+}
 
 pub fn run(cx: &mut Ctx) {
-    cx.infra("check not built");
+    cx.assume("kernel definitions are written from the doc comments of src/yaml/simd/{mod,scalar}.rs");
+    cx.assume("SIMD level is process-global: each configuration is a separate process over the same seeded case stream; equality is decided on per-case dump hashes (64-bit) by vh merge");
+    if !std::is_x86_feature_detected!("avx2") {
+        cx.note("host has no AVX2: the default configuration runs the SSE2 kernels too");
+    }
+    cx.check(
+        "kernels-vs-definition",
+        "buffers x every start offset; each kernel vs its documented definition",
+        Budget { quick: 30_000, thorough: 1_500_000, max_len: 512 },
+        |u, st| {
+            let b = gen_buffer(u);
+            st.class_if(b.len() >= 33, "len>=33");
+            st.class_if(b.len() >= 65, "len>=65");
+            if b.len() >= 17 {
+                st.nontrivial(hash_bytes(&b));
+            }
+            st.size(b.len());
+            st.sample(if b.len() >= 33 { "long" } else { "short" }, || json!(show_bytes(&b)));
+            st.describe(|| json!({"buffer_hex": hex(&b), "buffer": show_bytes(&b)}));
+            check_kernels(&b, u, st)
+        },
+    );
+    cx.require_class("kernels-vs-definition", "len>=33", 100);
+
+    cx.check_isolated(
+        "index-dump",
+        "whole-index dump per case, hashed; compared across configurations by vh merge",
+        Budget { quick: 24_000, thorough: 1_000_000, max_len: 3000 },
+        IsoOpts { watchdog_s: 30, chunk: 1500, hang_is_inconclusive: true, ..Default::default() },
+        |u, st| {
+            let kind = u.weighted(&[5, 4, 3, 1]);
+            let mut text = match kind {
+                0 | 2 => gen_gyaml(u),
+                1 => gen_yamlish(u),
+                _ => {
+                    let n = u.range(0, 200);
+                    (0..n).map(|_| *u.pick(ALPHA)).collect()
+                }
+            };
+            if kind == 2 || (kind == 1 && u.ratio(1, 4)) {
+                mutate(u, &mut text);
+            }
+            let dump = dump_index(&text);
+            let ok = dump.starts_with("build: Ok");
+            st.class(["gyaml", "yamlish", "gyaml-mutated", "soup"][kind]);
+            st.class_if(ok, "build-ok");
+            st.class_if(!ok, "build-err");
+            st.class_if(dump.contains("PANIC"), "panic-in-dump");
+            st.class_if(text.contains(&b'\r'), "has-CR");
+            let nt = text.len() >= 48 && crosses_16(&text);
+            st.class_if(nt, "nontrivial");
+            st.class_if(nt && ok, "nontrivial-and-build-ok");
+            if nt {
+                st.nontrivial(hash_bytes(&text));
+            }
+            st.size(text.len());
+            st.evals(1);
+            st.sample(if ok { "ok" } else { "err" }, || json!(show_bytes(&text)));
+            st.describe(|| json!({"text": show_bytes(&text), "text_hex": hex(&text)}));
+            st.dump(|| dump);
+            Ok(())
+        },
+    );
+    cx.require_class("index-dump", "nontrivial-and-build-ok", 500);
+    cx.require_class("index-dump", "has-CR", 200);
 }
